@@ -21,7 +21,7 @@ const RULES: [Option<&str>; 9] = [
     Some("SCREAMING-KEBAB-CASE"),
 ];
 // quick uses the first three pairs; camelCase keys are among them because a backend that re-cases keys leaves all-lowercase ones alone
-const KEYS: [(&str, &str); 6] = [("type", "content"), ("t", "c"), ("eventType", "eventData"), ("tag_key", "content_key"), ("Type", "Content"), ("kind", "data")];
+const KEYS: [(&str, &str); 6] = [("type", "content"), ("t", "c"), ("kindId", "dataUrl"), ("tag_key", "content_key"), ("Type", "Content"), ("kind", "data")];
 const IDENTS: [[&str; 2]; 3] = [["A", "Foo"], ["FooBar", "Foo1"], ["Baz", "Baz"]];
 
 #[derive(Clone, Copy, Debug, PartialEq, Eq)]
